@@ -454,6 +454,53 @@ func arRunOuter(sc *arScenario) map[string]any {
 	return obs
 }
 
+// the first round's transfers, as the code emits them (input material for the single-service entry point)
+func arFirstRoundTransfers(sc *arScenario) []types.DeferredTransfer {
+	cs := sc.install()
+	ps := cs.GetPriorStates()
+	chi := ps.GetChi()
+	var ts []types.DeferredTransfer
+	vfd.Guard(func() {
+		out, err := ParallelizedAccumulation(ParallelizedAccumulationInput{
+			PartialStateSet: types.PartialStateSet{ServiceAccounts: ps.GetDelta(), ValidatorKeys: ps.GetIota(), Authorizers: ps.GetVarphi(),
+				Bless: chi.Bless, Assign: chi.Assign, Designate: chi.Designate, CreateAcct: chi.CreateAcct, AlwaysAccum: chi.AlwaysAccum},
+			DeferredTransfers: []types.DeferredTransfer{}, WorkReports: sc.reports, AlwaysAccumulateMap: sc.free})
+		if err == nil {
+			ts = out.DeferredTransfers
+		}
+	})
+	return ts
+}
+
+// one run of the single-service accumulation function on a transfer sequence given in an arbitrary order:
+// Delta1 takes any sequence t and shows the service its transfers by sender, then by position in t
+func arRunSingle(sc *arScenario, tin []types.DeferredTransfer, s types.ServiceID) map[string]any {
+	cs := sc.install()
+	obs := map[string]any{"err": "", "panic": ""}
+	pan, msg := vfd.Guard(func() {
+		ps := cs.GetPriorStates()
+		chi := ps.GetChi()
+		out, err := SingleServiceAccumulation(SingleServiceAccumulationInput{
+			PartialStateSet: types.PartialStateSet{ServiceAccounts: ps.GetDelta(), ValidatorKeys: ps.GetIota(), Authorizers: ps.GetVarphi(),
+				Bless: chi.Bless, Assign: chi.Assign, Designate: chi.Designate, CreateAcct: chi.CreateAcct, AlwaysAccum: chi.AlwaysAccum},
+			DeferredTransfers: append([]types.DeferredTransfer(nil), tin...), WorkReports: nil, AlwaysAccumulateMap: types.AlwaysAccumulateMap{},
+			ServiceID: s})
+		if err != nil {
+			obs["err"] = err.Error()
+			return
+		}
+		acc := out.PartialStateSet.ServiceAccounts[s]
+		obs["store"] = arStore(acc)
+		obs["spent"] = int(int64(arBalance) - int64(acc.ServiceInfo.Balance))
+		obs["t"] = arTransfers(out.DeferredTransfers)
+		obs["gas"] = vfd.U64LE(uint64(out.GasUsed))
+	})
+	if pan {
+		obs["panic"] = msg
+	}
+	return obs
+}
+
 func arGroup(n int, run func(i int) map[string]any) []map[string]any {
 	groups := []map[string]any{}
 	index := map[string]int{}
@@ -490,6 +537,28 @@ func TestAccRounds(t *testing.T) {
 		rec["stf"] = arGroup(runs, func(i int) map[string]any { sched(i); return arRunSTF(sc) })
 		rec["par"] = arGroup(runs, func(i int) map[string]any { sched(i); return arRunPar(sc) })
 		rec["outer"] = arGroup(runs, func(i int) map[string]any { sched(i); return arRunOuter(sc) })
+		// single-service entry point: the first round's transfers in two seeded arbitrary orders, for every receiver
+		singles := []map[string]any{}
+		base := arFirstRoundTransfers(sc)
+		rng := vfd.NewRng(uint64(vfd.EnvInt("VF_SEED", 1))*7919 + uint64(vfd.I(c["n"])))
+		for k := 0; k < 2 && len(base) > 0; k++ {
+			tin := append([]types.DeferredTransfer(nil), base...)
+			for a := len(tin) - 1; a > 0; a-- {
+				b := rng.N(a + 1)
+				tin[a], tin[b] = tin[b], tin[a]
+			}
+			seen := map[types.ServiceID]bool{}
+			for _, x := range tin {
+				if seen[x.ReceiverID] {
+					continue
+				}
+				seen[x.ReceiverID] = true
+				s := x.ReceiverID
+				singles = append(singles, map[string]any{"s": int(s), "tin": arTransfers(tin),
+					"groups": arGroup(max(runs/6, 5), func(i int) map[string]any { sched(i); return arRunSingle(sc, tin, s) })})
+			}
+		}
+		rec["single"] = singles
 		out.Emit(rec)
 	}
 }
